@@ -7,7 +7,7 @@ ALL = ["C%02d" % i for i in range(1, 21)]
 # id -> (category, technique, level text, level note, design ref)
 CHECKS = {
  "C14": ("exploration", "runtime monitor in a chroot jail: before/after snapshot (all fields incl. inode and ctime) of sentinels outside both roots, provenance of every byte in the destination, fate of destination symlinks, landing path compared with an independent chroot-style resolver",
-         "Generated (source tree, destination tree, src path, dst path) with symlinks (absolute, '..'-laden, dangling, looping) to outside sentinels at every component and leaf x {follow-links, wildcards, always-replace, dir-contents, chown/utime/mode}, sources spelled 'x/.' for entries of every type. Held on the executions observed; known finding: lexical join in the dependency's RootPath.",
+         "Generated (source tree, destination tree, src path, dst path) with symlinks (absolute, '..'-laden, dangling, looping) to outside sentinels at every component and leaf x {follow-links, wildcards, always-replace, dir-contents, chown/utime/mode}, sources spelled 'x/.' for entries of every type; link groups below a replaced directory; destination files that share an inode with an outside file. Held on the executions observed; known finding: lexical join in the dependency's RootPath.",
          "Trusts chroot(2), the snapshot walker and the chroot-style resolver in copyB_common.go; no concurrent modification.", "DESIGN.md §5 C14"),
  "C15": ("exploration", "runtime monitor: destination snapshot vs an executable overlay model (7 calibrated rules) incl. expected-error outcomes, obstacle preservation and a repeated copy for idempotence",
          "Source/destination pairs over a shared 8-name universe (incl. two dot-only/dot-leading names) so that every type pair collides x {dir-contents, always-replace, wildcards, trailing separator, nested not-yet-existing dst, non-directory source spelled 'x/.', directory onto a non-directory}; all 49 (src type, dst type, outcome) classes are observed. Where the statement is silent every outcome is accepted and counted. Held on the executions observed.",
@@ -61,7 +61,7 @@ CHECKS = {
          "Generated trees over an adversarial name pool (bytes below and above '/', 255-byte names), all entry types, hard-link groups, depth<=6; every reported stat is compared field by field. Held on the executions observed.",
          "Trusts the snapshot walker and tree.CmpPath; root; link names demanded for regular files only.", "DESIGN.md §5 C09"),
  "C10": ("exploration", "runtime differential monitor: filtered fsutil.WalkDir callback sequence vs naive per-entry reference filter (fresh matcher on the full listing + ancestors); map-function clauses checked on the recorded map/report event sequence",
-         "Generated (tree, include list, exclude list, map function) cases over sibling-confusable names and a pattern grammar; known finding K1 (moby/patternmatcher) is triaged by comparing with the incremental-unpruned reference. Held on the executions observed.",
+         "Generated (tree, include list, exclude list, map function) cases over sibling-confusable names and a pattern grammar; known finding K1 (moby/patternmatcher) is triaged by comparing with the incremental-unpruned reference; one filter object in eight is walked again, re-entrantly and from another goroutine. Held on the executions observed.",
          "Single-pattern matching is moby/patternmatcher's on both sides; where the statement is silent (map result on lazily emitted parents) every outcome is accepted.", "DESIGN.md §5 C10"),
  "C12": ("exploration", "runtime differential monitor: real Validator vs executable specification on exhaustively enumerated bounded sequences + random long ones; order axioms on all pairs/triples",
          "Every sequence up to the length bound over a 32-path x {dir,file,delete} alphabet (dir/file records as add or modify records, delete records with and without file info) is executed against a fresh real Validator and compared (decision and rejection index) with a 15-line specification; ComparePath is compared with component-wise comparison and the strict-total-order axioms on all pairs/triples of an adversarial path alphabet. Held on the executions observed; bounded, not a proof.",
